@@ -304,6 +304,10 @@ func forInnerLabels(f *forExpander) forStateFn {
 			f.next()
 			return forInnerLabels
 		}
+	case tokColon:
+		// a colon after a label is dropped, as it is outside blocks
+		f.next()
+		return forInnerLabels
 	default:
 		// not expecting legal input here, but we will let the parser deal with it
 		return forInnerEmitLabels
